@@ -270,8 +270,9 @@ impl Group for C12Node {
     fn property(&self) -> &'static str { "C12" }
     fn model(&self) -> Option<&'static str> { Some("velocity_node") }
     fn rule(&self) -> &'static str {
-        "node: real Node with ManualClock and a global velocity policy (Hourly/Daily), approvals through add_keysend \
-         with distinct payment hashes, restarts through KVVPersister<MemoryKVVStore> + Node::restore_node between any two \
+        "node: real Node with ManualClock and a global velocity policy (Hourly/Daily), approvals through add_keysend / add_invoice \
+         directly and through the signer's approver (handle_proposed_keysend / handle_proposed_invoice, allowlisted and \
+         other payees) with distinct payment hashes and retries, restarts through KVVPersister<MemoryKVVStore> + Node::restore_node between any two \
          approvals; non-trivial = at least one approval, one refusal and one restart"
     }
     fn budget(&self, tier: Tier) -> usize { if tier == Tier::Quick { 300 } else { 5000 } }
@@ -283,8 +284,8 @@ impl Group for C12Node {
         let t: Vec<&str> = op.split_whitespace().collect();
         Some(match t.as_slice() {
             ["n_new", l, ty] => format!("spec {} {}", l, ty),
-            ["n_keysend", now, amt] => format!("insert {} {}", now, amt),
-            ["n_invoice", now, amt] => format!("insert {} {}", now, amt),
+            ["n_keysend", now, amt] | ["n_keysend", now, amt, _] => format!("insert {} {}", now, amt),
+            ["n_invoice", now, amt] | ["n_invoice", now, amt, _] => format!("insert {} {}", now, amt),
             ["n_dup", now] => format!("dup {}", now),
             ["n_restart", l, ty] => format!("restart {} {}", l, ty),
             _ => op.to_string(),
@@ -305,10 +306,12 @@ impl Group for C12Node {
                 let l = if rng.chance(1, 8) { limit + 1 } else { limit };
                 ops.push(format!("n_restart {} {}", l, ty));
             }
+            // route: d = the node entry point directly, a = through the signer's approver
+            // (vls-protocol-signer `Approve::handle_proposed_*`), al = approver, invoice payee on the allowlist
             if a > 0 && a < (1u64 << 60) && rng.chance(1, 2) {
-                ops.push(format!("n_invoice {} {}", t, a));
+                ops.push(format!("n_invoice {} {} {}", t, a, rng.pick(&["d", "a", "al"])));
             } else {
-                ops.push(format!("n_keysend {} {}", t, a));
+                ops.push(format!("n_keysend {} {} {}", t, a, rng.pick(&["d", "a"])));
             }
             // the same payment asked again (retry), possibly several times
             let mut k = 0;
@@ -334,8 +337,8 @@ impl Group for C12Node {
         let mut log: Vec<(u64, u64)> = Vec::new();
         let mut hash_ctr: u32 = 0;
         let (mut st, mut sf, mut sr) = (false, false, false);
-        // last approval request: (is_invoice, amount, counted as approved by the harness)
-        let mut last_req: Option<(bool, u64, bool)> = None;
+        // last approval request: (is_invoice, amount, counted as approved by the harness, route)
+        let mut last_req: Option<(bool, u64, bool, String)> = None;
         // the policy spec in force according to the ops (the oracle never trusts the node's own limit)
         let mut cur_spec: Option<(u64, String)> = None;
         for (i, op) in ops.iter().enumerate() {
@@ -343,10 +346,10 @@ impl Group for C12Node {
             // a retry re-issues the previous request unchanged (same payment hash, same amount)
             let (dup, rewritten);
             let t: Vec<&str> = if let ["n_dup", now] = t0.as_slice() {
-                match last_req {
-                    Some((is_inv, amt, _)) => {
+                match last_req.clone() {
+                    Some((is_inv, amt, _, ref route)) => {
                         dup = true;
-                        rewritten = format!("{} {} {}", if is_inv { "n_invoice" } else { "n_keysend" }, now, amt);
+                        rewritten = format!("{} {} {} {}", if is_inv { "n_invoice" } else { "n_keysend" }, now, amt, route);
                         rewritten.split_whitespace().collect()
                     }
                     None => { co.out.push("bad-op".into()); continue; }
@@ -359,13 +362,18 @@ impl Group for C12Node {
                     let n = Arc::new(Node::new(config, &seed, vec![], services(persister.clone(), clock.clone(), l.parse().unwrap(), itype(ty).unwrap())));
                     persister.new_node(&n.get_id(), &config, &*n.get_state()).unwrap();
                     persister.new_tracker(&n.get_id(), &n.get_tracker()).unwrap();
-                    n.add_allowlist(&[]).unwrap();
+                    {
+                        use lightning_signer::bitcoin::secp256k1::{PublicKey, Secp256k1, SecretKey};
+                        let payee = PublicKey::from_secret_key(&Secp256k1::new(), &SecretKey::from_slice(&[42; 32]).unwrap());
+                        n.add_allowlist(&[format!("payee:{}", payee)]).unwrap();
+                    }
                     let d = digest(&n.get_state().velocity_control);
                     node = Some(n);
                     log.clear();
                     format!("ok {}", d)
                 }
-                [kind @ ("n_keysend" | "n_invoice"), now, amt] => {
+                [kind @ ("n_keysend" | "n_invoice"), now, amt, ..] => {
+                    let route = t.get(3).copied().unwrap_or("d").to_string();
                     let n = node.as_ref().expect("n_new first");
                     let now: u64 = now.parse().unwrap();
                     let amt: u64 = amt.parse().unwrap();
@@ -374,7 +382,7 @@ impl Group for C12Node {
                     let mut h = [0u8; 32];
                     h[..4].copy_from_slice(&hash_ctr.to_be_bytes());
                     let is_invoice = *kind == "n_invoice";
-                    let already_counted = dup && last_req.map(|r| r.2).unwrap_or(false);
+                    let already_counted = dup && last_req.as_ref().map(|r| r.2).unwrap_or(false);
                     let r = std::panic::catch_unwind(std::panic::AssertUnwindSafe(|| {
                         if is_invoice {
                             // a real signed BOLT-11 invoice issued "now" for a fresh payment hash
@@ -383,7 +391,8 @@ impl Group for C12Node {
                             use lightning_signer::invoice::Invoice;
                             use lightning_signer::lightning::types::payment::PaymentSecret;
                             use lightning_signer::lightning_invoice::{Currency, InvoiceBuilder};
-                            let key = SecretKey::from_slice(&[42; 32]).unwrap();
+                            // the payee of key 42 is on the node's allowlist (see n_new), the payee of key 43 is not
+                            let key = SecretKey::from_slice(&[if route == "al" { 42 } else { 43 }; 32]).unwrap();
                             let inv = InvoiceBuilder::new(Currency::BitcoinTestnet)
                                 .description("verif".into())
                                 .payment_hash(Sha256Hash::hash(&h))
@@ -393,9 +402,17 @@ impl Group for C12Node {
                                 .amount_milli_satoshis(amt)
                                 .build_signed(|hash| Secp256k1::new().sign_ecdsa_recoverable(hash, &key))
                                 .unwrap();
-                            n.add_invoice(Invoice::Bolt11(inv))
-                        } else {
+                            if route == "d" {
+                                n.add_invoice(Invoice::Bolt11(inv))
+                            } else {
+                                use vls_protocol_signer::approver::{Approve, PositiveApprover};
+                                PositiveApprover().handle_proposed_invoice(n, Invoice::Bolt11(inv))
+                            }
+                        } else if route == "d" {
                             n.add_keysend(make_test_pubkey(1), PaymentHash(h), amt)
+                        } else {
+                            use vls_protocol_signer::approver::{Approve, PositiveApprover};
+                            PositiveApprover().handle_proposed_keysend(n, make_test_pubkey(1), PaymentHash(h), amt)
                         }
                     }));
                     match r {
@@ -408,7 +425,8 @@ impl Group for C12Node {
                                 Some((l, _)) => (*l, 11 * 300u64),
                                 None => (u64::MAX, 0),
                             };
-                            last_req = Some((is_invoice, amt, ok || already_counted));
+                            last_req = Some((is_invoice, amt, ok || already_counted, route.clone()));
+                            co.tags.insert(format!("route:{}:{}", route, ok));
                             if dup { co.tags.insert(format!("dup:{}", ok)); }
                             if ok && already_counted {
                                 // a repeat of an approved payment: answered true, nothing new approved
@@ -590,6 +608,152 @@ impl Group for C12Fee {
     }
 }
 
+
+// ---------------------------------------------------------------------------------------------
+
+/// The approver-level velocity control: `VelocityApprover<NegativeApprover>` of vls-protocol-signer
+/// (automatic approval while its own `VelocityControl` accepts, otherwise ask the delegate, which always
+/// declines here) in front of a node whose own policy velocity is unlimited.
+pub struct C12Approver;
+
+impl Group for C12Approver {
+    fn property(&self) -> &'static str { "C12" }
+    fn model(&self) -> Option<&'static str> { Some("velocity") }
+    fn rule(&self) -> &'static str {
+        "approver: VelocityApprover<NegativeApprover> (its own VelocityControl from an Hourly/Daily spec) in front of a real \
+         Node with an unlimited policy velocity; proposals through handle_proposed_invoice (real signed BOLT-11 invoices) \
+         and handle_proposed_keysend with fresh payment hashes at non-decreasing times; the control is compared with the \
+         model after every proposal and the approved amounts with the sliding-window oracle; non-trivial = at least one \
+         approval and one refusal"
+    }
+    fn budget(&self, tier: Tier) -> usize { if tier == Tier::Quick { 200 } else { 4000 } }
+    fn corpus(&self) -> Vec<Vec<String>> {
+        vec!["va_new 1000 h|va_keysend 1600000000 900|va_invoice 1600000000 101|va_invoice 1600000000 100|va_keysend 1600003300 900|va_keysend 1600003600 900|va_invoice 1600003601 1"
+            .split('|').map(|s| s.to_string()).collect()]
+    }
+    fn model_line(&self, op: &str) -> Option<String> {
+        let t: Vec<&str> = op.split_whitespace().collect();
+        Some(match t.as_slice() {
+            ["va_new", l, ty] => format!("spec {} {}", l, ty),
+            ["va_keysend", now, amt] | ["va_invoice", now, amt] => format!("insert {} {}", now, amt),
+            _ => op.to_string(),
+        })
+    }
+    fn gen_case(&self, rng: &mut Rng, tier: Tier) -> Vec<String> {
+        let limit = *rng.pick(&[1000u64, 5000, 1_000_000, 1]);
+        let ty = *rng.pick(&["h", "d"]);
+        let (bi, n) = if ty == "d" { (3600u64, 24u64) } else { (300, 12) };
+        let mut ops = vec![format!("va_new {} {}", limit, ty)];
+        let len = rng.range(3, if tier == Tier::Quick { 10 } else { 25 }) as usize;
+        let mut ta = gen_times_amounts(rng, bi, n, limit, len, tier);
+        for x in ta.iter_mut() { x.0 = x.0.saturating_add(1_600_000_000).min(4_000_000_000); }
+        ta.sort();
+        for (t, a) in ta {
+            if a > 0 && a < (1u64 << 60) && rng.chance(1, 2) {
+                ops.push(format!("va_invoice {} {}", t, a));
+            } else {
+                ops.push(format!("va_keysend {} {}", t, a));
+            }
+        }
+        ops
+    }
+    fn exec_case(&self, ops: &[String]) -> CaseOut {
+        use vls_protocol_signer::approver::{Approve, NegativeApprover, VelocityApprover};
+        let mut co = CaseOut::default();
+        let persister: Arc<dyn Persist> = Arc::new(KVVPersister(MemoryKVVStore::new([7u8; 16]), JsonFormat));
+        let clock = Arc::new(ManualClock::new(Duration::from_secs(1_600_000_000)));
+        let config = NodeConfig {
+            network: Network::Testnet,
+            key_derivation_style: KeyDerivationStyle::Native,
+            use_checkpoints: true,
+            allow_deep_reorgs: true,
+        };
+        let mut st: Option<(Arc<Node>, VelocityApprover<NegativeApprover>, u64, u64)> = None;
+        let mut log: Vec<(u64, u64)> = Vec::new();
+        let mut hash_ctr: u32 = 0;
+        let (mut seen_t, mut seen_f) = (false, false);
+        for (i, op) in ops.iter().enumerate() {
+            let t: Vec<&str> = op.split_whitespace().collect();
+            let line = match t.as_slice() {
+                ["va_new", l, ty] => {
+                    let limit: u64 = l.parse().unwrap();
+                    let n = Arc::new(Node::new(config, &[9u8; 32], vec![], services(persister.clone(), clock.clone(), 0, VelocityControlIntervalType::Unlimited)));
+                    let control = VelocityControl::new(VelocityControlSpec { limit_msat: limit, interval_type: itype(ty).unwrap() });
+                    let d = digest(&control);
+                    let a = VelocityApprover::new(clock.clone(), control, NegativeApprover());
+                    st = Some((n, a, limit, if *ty == "d" { 23 * 3600 } else { 11 * 300 }));
+                    log.clear();
+                    format!("ok {}", d)
+                }
+                [kind @ ("va_keysend" | "va_invoice"), now, amt] => {
+                    let (n, a, limit, wlen) = st.as_ref().expect("va_new first");
+                    let now: u64 = now.parse().unwrap();
+                    let amt: u64 = amt.parse().unwrap();
+                    clock.set(Duration::from_secs(now));
+                    hash_ctr += 1;
+                    let mut h = [0u8; 32];
+                    h[..4].copy_from_slice(&hash_ctr.to_be_bytes());
+                    let r = std::panic::catch_unwind(std::panic::AssertUnwindSafe(|| {
+                        if *kind == "va_invoice" {
+                            use lightning_signer::bitcoin::hashes::{sha256::Hash as Sha256Hash, Hash};
+                            use lightning_signer::bitcoin::secp256k1::{Secp256k1, SecretKey};
+                            use lightning_signer::invoice::Invoice;
+                            use lightning_signer::lightning::types::payment::PaymentSecret;
+                            use lightning_signer::lightning_invoice::{Currency, InvoiceBuilder};
+                            let key = SecretKey::from_slice(&[43; 32]).unwrap();
+                            let inv = InvoiceBuilder::new(Currency::BitcoinTestnet)
+                                .description("verif".into())
+                                .payment_hash(Sha256Hash::hash(&h))
+                                .payment_secret(PaymentSecret(h))
+                                .duration_since_epoch(Duration::from_secs(now))
+                                .min_final_cltv_expiry_delta(144)
+                                .amount_milli_satoshis(amt)
+                                .build_signed(|hash| Secp256k1::new().sign_ecdsa_recoverable(hash, &key))
+                                .unwrap();
+                            a.handle_proposed_invoice(n, Invoice::Bolt11(inv))
+                        } else {
+                            a.handle_proposed_keysend(n, make_test_pubkey(1), PaymentHash(h), amt)
+                        }
+                    }));
+                    match r {
+                        Err(_) => { co.tags.insert("va:panic".into()); "panic".to_string() }
+                        Ok(Err(e)) => { co.tags.insert("va:err".into()); format!("err {:?}", e.code()) }
+                        Ok(Ok(ok)) => {
+                            if ok {
+                                seen_t = true;
+                                co.tags.insert("va:true".into());
+                                log.push((now, amt));
+                                if let Some((t0, sum)) = window_violation(&log, *wlen, *limit) {
+                                    co.violations.push(Violation {
+                                        kind: "approver-window-exceeds-limit".into(),
+                                        desc: format!("the velocity approver approved {} msat within window [{}, {}] with limit {}", sum, t0, t0 + wlen, limit),
+                                        at: i,
+                                    });
+                                }
+                                // what the approver approved the node must have recorded
+                                if !n.get_state().invoices.contains_key(&PaymentHash(if *kind == "va_invoice" {
+                                    use lightning_signer::bitcoin::hashes::{sha256::Hash as Sha256Hash, Hash};
+                                    Sha256Hash::hash(&h).to_byte_array()
+                                } else { h })) {
+                                    co.violations.push(Violation { kind: "approved-but-not-recorded".into(), desc: format!("proposal {} answered true but the node has no record of it", op), at: i });
+                                }
+                            } else {
+                                seen_f = true;
+                                co.tags.insert("va:false".into());
+                            }
+                            format!("{} {}", ok, digest(&a.control()))
+                        }
+                    }
+                }
+                _ => "bad-op".to_string(),
+            };
+            co.out.push(line);
+        }
+        co.nontrivial = seen_t && seen_f;
+        co
+    }
+}
+
 pub fn groups() -> Vec<Box<dyn Group>> {
-    vec![Box::new(C12Unit), Box::new(C12Node), Box::new(C12Fee)]
+    vec![Box::new(C12Unit), Box::new(C12Node), Box::new(C12Fee), Box::new(C12Approver)]
 }
